@@ -533,7 +533,10 @@ class Tokenizer:
                 if self._is_uri_end(this, nxt):
                     if this is not self.END and " " in this:
                         before, after = this.split(" ", 1)
-                        punct, tail = self._handle_free_link_text(punct, tail, before)
+                        if before:
+                            punct, tail = self._handle_free_link_text(
+                                punct, tail, before
+                            )
                         tail += " " + after
                     else:
                         self._head -= 1
